@@ -20,7 +20,11 @@ FLOORS = {"nontrivial": 0.5}
 budget = c05.budget
 strategy = c05.strategy
 shrink_candidates = c05.shrink_candidates
-directed_cases = c05.directed_cases
+
+
+def directed_cases(tier):
+    # C05's directed histories without the multi-session ones (those are judged by C05's own second stage)
+    return [c for c in c05.directed_cases(tier) if c.get("kind") != "sessions"]
 
 
 def run_case(case):
